@@ -1,1 +1,68 @@
-fn main() { eprintln!("stub"); }
+//! gql_tools <relay-exec|relay-schema|iso-schema|iso-extension>
+//! stdin: JSON lines {"id": n, "text": "..."}; stdout: one JSON line per document:
+//! {"id", "ok", "tree" | "errors":[{"message","start","end"}], "panic"}; relay-schema adds
+//! "printed" and "reparse": {"ok","tree"|"errors"|"panic"} (print = Display of SchemaDocument).
+use std::io::{BufRead, Write};
+use std::panic::{catch_unwind, AssertUnwindSafe};
+
+use serde_json::{json, Value};
+
+mod iso;
+mod relay;
+
+fn panic_message(e: Box<dyn std::any::Any + Send>) -> String {
+    if let Some(s) = e.downcast_ref::<&str>() {
+        s.to_string()
+    } else if let Some(s) = e.downcast_ref::<String>() {
+        s.clone()
+    } else {
+        "panic".to_string()
+    }
+}
+
+pub fn guarded(f: impl FnOnce() -> Value) -> Value {
+    match catch_unwind(AssertUnwindSafe(f)) {
+        Ok(v) => v,
+        Err(e) => json!({"ok": false, "panic": panic_message(e)}),
+    }
+}
+
+fn main() {
+    let mode = std::env::args().nth(1).unwrap_or_default();
+    if !matches!(mode.as_str(), "relay-exec" | "relay-schema" | "iso-schema" | "iso-extension") {
+        eprintln!("usage: gql_tools <relay-exec|relay-schema|iso-schema|iso-extension> < docs.jsonl");
+        std::process::exit(2);
+    }
+    std::panic::set_hook(Box::new(|_| {}));
+    let stdin = std::io::stdin();
+    let stdout = std::io::stdout();
+    let mut out = std::io::BufWriter::new(stdout.lock());
+    for line in stdin.lock().lines() {
+        let line = match line {
+            Ok(l) => l,
+            Err(_) => break,
+        };
+        if line.trim().is_empty() {
+            continue;
+        }
+        let req: Value = match serde_json::from_str(&line) {
+            Ok(v) => v,
+            Err(e) => {
+                writeln!(out, "{}", json!({"id": null, "ok": false, "harness_error": e.to_string()})).unwrap();
+                continue;
+            }
+        };
+        let id = req["id"].clone();
+        let text = req["text"].as_str().unwrap_or("").to_string();
+        let mut res = match mode.as_str() {
+            "relay-exec" => guarded(|| relay::exec(&text)),
+            "relay-schema" => guarded(|| relay::schema(&text)),
+            "iso-schema" => guarded(|| iso::schema(&text)),
+            _ => guarded(|| iso::extension_doc(&text)),
+        };
+        res["id"] = id;
+        writeln!(out, "{}", res).unwrap();
+        // flush per document so that the driver knows which document killed the process
+        out.flush().unwrap();
+    }
+}
